@@ -1491,8 +1491,16 @@ func runHistory(id int, seed int64, mix string, n int, script []Cmd) History {
 			}
 		}
 		ref.endSessions(c.Idx, &before, &after)
-		if c.Kind == "txn" && len(res.Errors) == 0 {
-			// sessions ended inside the transaction may have been re-locked later in it: resync holders only
+		pureKV := true
+		for _, op := range c.Ops {
+			if op.Kind != "kv" {
+				pureKV = false
+			}
+		}
+		if c.Kind == "txn" && len(res.Errors) == 0 && !pureKV {
+			// sessions ended inside the transaction (by its node, service, check or session verbs) may
+			// have been re-locked later in it: resync holders only.  A transaction of KV verbs alone
+			// ends no session and is compared with the reference map exactly.
 			for _, kv := range after.KVs {
 				if r := ref[kv.K]; r != nil && r.session != kv.S {
 					r.session, r.mo, r.lock = kv.S, kv.M, kv.L
